@@ -944,6 +944,8 @@ def run(rep, tier):
     rep.guard("R9.1", "keyword table", lambda: r91(rep))
     rep.guard("R9.1", "identifier sites", lambda: r91_sites(rep))
     rep.guard("R9.1", "type names", lambda: r91_types(rep))
+    rep.guard("R9.1", "case names", lambda: r91_cases(rep))
+    rep.guard("R9.1", "resource references", lambda: r91_refs(rep))
     state = {}
     rep.guard("R9.2", "template binders", lambda: r92(rep, state))
     rep.guard("R9.2", "operand roots", lambda: r92_roots(rep, state))
@@ -1161,6 +1163,74 @@ def r91_types(rep):
                f"`{pn}.to_upper_camel_case()` (heck) names the definition while references use the remapped name: a "
                f"type named `guest` is defined as `Guest` and referenced as `Guest_`" if raw else "",
                d.loc(raw[0]) if raw else d.loc())
+
+
+def r91_cases(rep):
+    """variant / enum case names: the use sites spell a case exactly as the definition does (heck upper camel)"""
+    PATH_RX = re.compile(r"\{\w+\}::\{(?P<hole>\w+)\}")
+    emit = synq.find_fn(BG, "emit", self_ty="FunctionBindgen")
+    m = synq.find_match(emit.body, "Instruction::", min_arms=20)
+    te = synq.find_fn(IFACE, "type_enum")
+    sites = [("VariantLower", emit, synq.arm_for(m, "Instruction::VariantLower").body),
+             ("VariantLift", emit, synq.arm_for(m, "Instruction::VariantLift").body),
+             ("type_enum::_lift", te, te.body)]
+    n = 0
+    for nm, f, node in sites:
+        inits = []
+        for mm, fm in fn_templates(f, node, PATH_RX):
+            init = local_init(f, mm.group("hole"), start(fm.template_node))
+            if init is None:
+                continue
+            if init.get("k") == "mcall" and init["recv"].get("k") == "field" and init["recv"]["member"] == "name":
+                inits.append(init)
+        n += len(inits)
+        ok = bool(inits) and all(i["method"] == "to_upper_camel_case" and not i["args"] for i in inits)
+        rep.ob("R9.1", f"{nm}: a case is named by heck's upper camel case of its WIT name, as in the definition", ok,
+               f"{[i['method'] for i in inits]}", f.loc(node))
+    rep.floor("R9.1", "case-path templates at use sites", n, 4)
+    for fn_, want in (("print_rust_enum", 2), ("print_typedef_enum", 4)):
+        f = synq.find_fn(IFACE, fn_, self_ty="InterfaceGenerator")
+        rep.saw(f"{IFACE}::{fn_}")
+        c = synq.method_calls(f.body, "to_upper_camel_case")
+        other = [x for x in synq.fn_calls(f.body, "to_rust_ident")]
+        rep.ob("R9.1", f"{fn_}: cases are defined with heck's upper camel case of their WIT name", len(c) >= want and not other,
+               f"{len(c)} conversion(s)", f.loc())
+
+
+def r91_refs(rep):
+    """the resource struct `{camel}` and `{camel}Borrow` are defined by type_resource with the remapping function;
+    template holes that denote them elsewhere must be produced the same way (or by type_path)"""
+    REF_RX = re.compile(r"\{(?P<hole>\w+)\}(?P<suf>::new\b|::dtor\b|Borrow\b)")
+    tr = synq.find_fn(IFACE, "type_resource")
+    defs = [render(i) for nm, i, st in synq.bindings(tr.body) if i is not None and i.get("k") == "call" and
+            synq.short(render(i["func"])) == "to_upper_camel_case"]
+    rep.ob("R9.1", "type_resource names the resource struct with the remapping to_upper_camel_case", len(defs) == 1,
+           f"{defs}", tr.loc())
+    n = 0
+    seen = set()
+    for rel in (IFACE, BG):
+        for f in synq.all_fns(rel):
+            if f.body is None or f.name == "type_resource":
+                continue
+            for mm, fm in fn_templates(f, f.body, REF_RX):
+                init = local_init(f, mm.group("hole"), start(fm.template_node))
+                if init is None:
+                    continue
+                heck = [x for x in synq.method_calls(init, "to_upper_camel_case")]
+                viafn = [x for x in synq.fn_calls(init, "to_upper_camel_case")] or synq.method_calls(init, "type_path")
+                if not heck and not viafn:
+                    continue
+                key = (f.name, mm.group("suf"))
+                if key in seen:
+                    continue
+                seen.add(key)
+                n += 1
+                rep.ob("R9.1", f"{f.name}: `{{..}}{mm.group('suf')}` names the resource type as type_resource defines it",
+                       not heck,
+                       "the hole is heck's `.to_upper_camel_case()` of the WIT name while the definition uses the remapping "
+                       "function: a resource named `guest` is defined as `Guest_` / `Guest_Borrow` and referenced as "
+                       "`Guest` / `GuestBorrow`" if heck else render(init)[:80], f.loc(fm.template_node))
+    rep.floor("R9.1", "resource type references outside type_path", n, 5)
 
 
 # ------------------------------------------------------------------------------------------------ R9.2
